@@ -32,7 +32,7 @@ CHECKS.update({
    text="Complex add/sub/mul/square/pow are compositions of exact products and one correctly rounded add per component in the model (normalize theorems apply); the model is tied to the code by correspondence and every generated case is decided by an exact-rational oracle, including the division family's error bound and exact equality with complex/int/float/mpf. Theorems in Props/C04.v state componentwise correct rounding of add, sub, mul, scaling and the real part of square for all finite components, precisions and modes, that mpc equality is equality of both components, and for division, reciprocal and modulus an exact structural statement (correctly rounded quotient / square root of the (prec+10)- resp. (prec+4)-bit truncations) together with an error bound relative to the modulus: each component of z/w within 3*2^(1-prec)*|z|/|w|, of 1/z within 3*2^(1-prec)/|z|, |z| within 3*2^-prec*|z| (Flocq relative-error lemma + Cauchy-Schwarz).",
    note=TB_A + " Integer and negative powers, sqrt and mpf/mpc mixed division are decided by the exact oracle, not by a theorem."),
  "C05": dict(level="proof", engine="A", technique="Coq theorems (Props/C05.v): mpf_cmp returns the sign of the exact difference for all canonical finite operands, lt/le/gt/ge agree with the real order, nan unordered; mpf_hash = CPython's integer hash for integer-valued mpfs, the unique solution of h*2^k = m (mod 2^61-1) for dyadic rationals, mpc_hash(x,0) = mpf_hash x (pure Z, axiom-free); Gallina model of mpf_cmp/lt/le/gt/ge/eq, mpf_hash, mpc_hash in correspondence; exact-rational order oracle; hash agreement against the interpreter's hash() of int/float/complex",
-   text="Comparison and hash routines are transliterated and tied by correspondence on same-top-bit, tiny-difference, cross-sign and special pairs; at API level every comparison across mpf/int/float/mpc/complex is decided against exact rationals and equal values are required to have equal hash(). Theorems in Props/C05.v: for all finite canonical operands mpf_cmp is the sign of the exact difference and mpf_lt/le/gt/ge hold exactly when the real-number relation holds (so the order inherits totality, antisymmetry and transitivity from the reals); nan is unordered. The hash theorems derive from 2^61 = 1 (mod 2^61-1) that mpf_hash follows the interpreter's rule hash(m/2^k) = m*(2^k)^-1 mod P for every finite value, hence equal numbers hash equally across int, mpf and real-valued mpc.",
+   text="Comparison and hash routines are transliterated and tied by correspondence on same-top-bit, tiny-difference, cross-sign and special pairs; at API level every comparison across mpf/int/float/mpc/complex is decided against exact rationals and equal values are required to have equal hash(). Theorems in Props/C05.v: for all finite canonical operands mpf_cmp is the sign of the exact difference and mpf_lt/le/gt/ge hold exactly when the real-number relation holds (so the order inherits totality, antisymmetry and transitivity from the reals); nan is unordered. The hash theorems derive from 2^61 = 1 (mod 2^61-1) that mpf_hash follows the interpreter's rule hash(m/2^k) = m*(2^k)^-1 mod P for every finite value, hence equal numbers hash equally across int, mpf and real-valued mpc. Comparison of an mpf with a Python int or float is proved to be the comparison of the exact values (the right operand is converted exactly: from_int without rounding, from_float at 53 bits).",
    note=TB_A + " CPython's numeric hash is the reference (validated against the running interpreter on every run)."),
  "C06": dict(level="proof", engine="A", technique="Coq theorems (Props/C06.v): to_int/floor/ceil/nint/frac against Zfloor/Zceil/ZnearestE, mpf_mod against x - y*floor(x/y); Gallina model of round_int/to_int/mpf_round_int/floor/ceil/nint/frac/mpf_mod (+complex) in correspondence; exact definitions decided with rationals",
    text="Integer-part functions and modulo are transliterated; the model is tied by correspondence and each case is decided against the mathematical definition (floor, ceil, ties-to-even nint, frac in [0,1), sign and magnitude of x mod y) with correct rounding at the working precision. Theorems in Props/C06.v: the integer-part functions return Flocq's Zfloor/Zceil/ZnearestE of the value (rounded to prec), frac = x - floor x; mpf_mod returns the Flocq rounding of x - y*floor(x/y) for every finite x and non-zero finite y (both shortcut branches included), and that remainder has the sign of the divisor and smaller magnitude. to_fixed is proved to be floor(x*2^prec) for every integer prec and to_rational to be exact.",
@@ -119,7 +119,7 @@ CHECKS.update({
 
 CHECKS.update({
  "C25": dict(level="proof", engine="A", technique="Coq theorem: the memoised factorial returns n! for every call history (induction over call lists); tables read from the live integer functions compared by Coq vm_compute with definitional references on exhaustive ranges; exact-or-one-ulp instances decided in Z",
-   text="libintmath.ifac's growing cache (with its size limit) is modelled as a state machine and proved to return n! after any sequence of calls. ifac2, ifib, stirling1/2, binomial, bell, eulernum, bernfrac, moebius, isprime, list_primes, primepi are read from the live code (after scrambled warm-up calls) and compared inside Coq with reference definitions (recurrences, trial division) exhaustively on stated ranges; strong pseudoprimes carry Coq-checked factor certificates; factorial/fac2/fib/binomial/stirling/rf at arguments exceeding the precision are decided exact-when-representable and within one ulp otherwise.",
+   text="libintmath.ifac's growing cache (with its size limit) is modelled as a state machine and proved to return n! after any sequence of calls. ifac2, ifib, stirling1/2, binomial, bell, eulernum, bernfrac, moebius, isprime, list_primes, primepi are read from the live code (after scrambled warm-up calls) and compared inside Coq with reference definitions (recurrences, trial division) exhaustively on stated ranges; strong pseudoprimes carry Coq-checked factor certificates; factorial/fac2/fib/binomial/stirling/rf at arguments exceeding the precision are decided exact-when-representable and within one ulp otherwise. ifib (Dijkstra's logarithmic iteration with its cache of the values below 250) and ifac2 (one memo dictionary per parity, cache limit) are modelled as algorithms and proved to return F(n) (with F(-n) = (-1)^(n+1) F(n)) and n!! for every argument and every sequence of calls (ifib_history, ifac2_history; the ifac2 invariant includes that the keys of one parity are stored contiguously); the models are run inside Coq on the same call sequences as the live routines.",
    note=TB_Z + " Ranges are bounded and stated in the evidence; Miller-Rabin determinism below 3.4e14 is a literature fact, not proved; bernoulli numerics, mangoldt, cyclotomic, bernpoly/eulerpoly not decided."),
 })
 
